@@ -335,6 +335,16 @@ func applySubs(t *core.Term, subs []valueSub) *core.Term {
 				}
 			}
 		}
+		// a helper with a single result: its value is the call term itself
+		if x.Op == "call" && x.Val != nil {
+			for _, sb := range subs {
+				if sb.idx == "0" && x.Val == ssa.Value(sb.site) {
+					if cs := sb.site.Common().StaticCallee(); cs != nil && cs.Signature.Results().Len() == 1 {
+						return sb.repl
+					}
+				}
+			}
+		}
 		return nil
 	})
 }
